@@ -140,6 +140,17 @@ def run_case(ctx, case):
                     ctx.count('skipped_anchor_tie')
                     continue
                 a = model.allowed[k][0]
+                # floating-point floor: the frame is built from coordinate differences; its relative error is about
+                # eps * |coordinates| / (bond * sin), and it is amplified by the distance of the target atom.  Cases
+                # whose floor is not far below the tolerance cannot be decided at 1e-8 and are counted, not judged.
+                if rcls == 'general':
+                    n1_, n2_ = model.frames[a]
+                    bondmin = min(np.linalg.norm(pos[n1_] - pos[a]), np.linalg.norm(pos[n2_] - pos[a]))
+                    sn = max(gen.sin_angle(pos[a], pos[n1_], pos[n2_]), 1e-300) if model.anchor_class(a) == 'generic' else 1.0
+                    floor = 2.2e-16 * s * np.linalg.norm(tpos[k] - pos[a]) * (1 + np.abs(pos2).max()) / (bondmin * sn)
+                    if floor > 2e-10:
+                        ctx.count('skipped_float_floor')
+                        continue
                 if rcls == 'general':
                     cls = model.anchor_class(a)
                     if cls == 'generic':
